@@ -77,6 +77,10 @@ func (sh *SearchHistory) Load() error {
 		return nil
 	}
 
+	// Decode into fresh entries: encoding/json reuses the elements of an existing
+	// slice without clearing them, so fields the file omits when empty (context,
+	// duration) would keep the values of whatever this instance held before.
+	sh.Entries = nil
 	err = json.Unmarshal(data, sh)
 	// The file decides Entries and MaxSize, so make them sane again whatever it
 	// held (hand edit, older version, damaged file decoded half-way): a
